@@ -1,4 +1,4 @@
-//! unit: range_sets -- ArrayRangeSet (sorted vector of disjoint, non-adjacent ranges): insert is proved equal to a recursive model (shape layer), and the model is proved to preserve well-formedness and to compute exactly set union (ghost layer)
+//! unit: range_sets -- ArrayRangeSet (sorted vector of disjoint, non-adjacent ranges): insert is proved equal to a recursive model (shape layer), and the model is proved to preserve well-formedness and to compute exactly set union (ghost layer); remove is proved to compute exactly set difference (inductive loop invariant + one step lemma per way of cutting a range)
 //! props: C01 C03
 //! trusted: tinyvec::TinyVec as a sequence (len, push, insert, remove, index, index_mut, is_empty, partition_point with std's contract); Range::is_empty / clone
 #![allow(unused_imports, dead_code, non_camel_case_types, non_snake_case, unused_variables, unused_mut, unused_assignments)]
@@ -29,7 +29,7 @@ impl<A: Array> TinyVec<A> {
     #[verifier::external_body]
     pub fn push(&mut self, x: A::Item) ensures final(self)@ == old(self)@.push(x) { self.inner.push(x) }
     #[verifier::external_body]
-    pub fn insert(&mut self, i: usize, x: A::Item) requires i <= old(self)@.len() ensures final(self)@ == old(self)@.insert(i as int, x) { self.inner.insert(i, x) }
+    pub fn insert(&mut self, i: usize, x: A::Item) requires i <= old(self)@.len() ensures final(self)@ == old(self)@.insert(i as int, x), final(self)@.len() <= usize::MAX /* the length of a vector is a usize: growing past it aborts */ { self.inner.insert(i, x) }
     #[verifier::external_body]
     pub fn remove(&mut self, i: usize) -> (r: A::Item) requires i < old(self)@.len() ensures final(self)@ == old(self)@.remove(i as int), r == old(self)@[i as int] { self.inner.remove(i) }
     #[verifier::external_body]
@@ -151,6 +151,176 @@ pub proof fn lemma_merge_from(s: RS, idx: int)
     }
 }
 
+
+// ---- ArrayRangeSet::remove: set difference -------------------------------------------------------------
+/// loop invariant of `remove`: everything left of idx is final and disjoint from x, everything from idx on still ends after x.start
+/// (so it is untouched original content), nothing was added, nothing outside x was lost
+pub open spec fn rm_inv(s0: RS, cur: RS, x: Range<u64>, idx: int, result: bool) -> bool {
+    &&& wf(cur) && 0 <= idx <= cur.len()
+    &&& forall|i: int| 0 <= i < idx ==> ((#[trigger] cur[i]).end <= x.start || cur[i].start >= x.end)
+    &&& forall|i: int| idx <= i < cur.len() ==> (#[trigger] cur[i]).end > x.start
+    &&& forall|v: u64| #[trigger] contains(cur, v) ==> contains(s0, v)
+    &&& forall|v: u64| #[trigger] contains(s0, v) && !inr(x, v) ==> contains(cur, v)
+    &&& result ==> exists|v: u64| inr(x, v) && contains(s0, v)
+    &&& !result ==> cur == s0
+}
+/// one iteration on a range that overlaps x: what is left of cur[idx] once x is cut out (nothing, its right part, its left part, or both)
+pub open spec fn rm_step(cur: RS, x: Range<u64>, idx: int) -> (RS, int) {
+    let r = cur[idx];
+    let left = Range { start: r.start, end: x.start };
+    let right = Range { start: x.end, end: r.end };
+    let l_ne = r.start < x.start;
+    let r_ne = x.end < r.end;
+    if !l_ne && !r_ne { (cur.remove(idx), idx) }
+    else if !l_ne { (cur.update(idx, right), idx + 1) }
+    else if !r_ne { (cur.update(idx, left), idx + 1) }
+    else { (cur.update(idx, right).insert(idx, left), idx + 2) }
+}
+pub proof fn lemma_rm_step_none(s0: RS, cur: RS, x: Range<u64>, idx: int, result: bool)
+    requires rm_inv(s0, cur, x, idx, result), x.start < x.end, idx < cur.len(), cur[idx].start < x.end,
+        !(cur[idx].start < x.start) && !(x.end < cur[idx].end)
+    ensures rm_inv(s0, rm_step(cur, x, idx).0, x, rm_step(cur, x, idx).1, true),
+        rm_step(cur, x, idx).0.len() - rm_step(cur, x, idx).1 < cur.len() - idx,
+{
+    let r = cur[idx];
+    let n = rm_step(cur, x, idx).0;
+    let nidx = rm_step(cur, x, idx).1;
+    let left = Range { start: r.start, end: x.start };
+    let right = Range { start: x.end, end: r.end };
+    let l_ne = r.start < x.start;
+    let r_ne = x.end < r.end;
+    let w = umax(r.start, x.start);
+    assert(r.start < r.end && r.end > x.start);
+    assert(inr(r, w) && inr(x, w));
+    assert(contains(cur, w));
+    assert(contains(s0, w));
+        assert forall|i: int| 0 <= i < n.len() implies #[trigger] n[i] == (if i < idx { cur[i] } else { cur[i + 1] }) by {}
+        assert(wf(n)) by {
+            assert forall|i: int| 0 <= i < n.len() implies (#[trigger] n[i]).start < n[i].end by { if i < idx { assert(cur[i].start < cur[i].end); } else { assert(cur[i + 1].start < cur[i + 1].end); } }
+            assert forall|i: int, j: int| 0 <= i < j < n.len() implies (#[trigger] n[i]).end < (#[trigger] n[j]).start by {
+                if j < idx { assert(cur[i].end < cur[j].start); } else if i < idx { assert(cur[i].end < cur[j + 1].start); } else { assert(cur[i + 1].end < cur[j + 1].start); }
+            }
+        }
+        assert forall|i: int| 0 <= i < nidx implies ((#[trigger] n[i]).end <= x.start || n[i].start >= x.end) by { assert(n[i] == cur[i]); }
+        assert forall|i: int| nidx <= i < n.len() implies (#[trigger] n[i]).end > x.start by { assert(n[i] == cur[i + 1]); }
+        assert forall|v: u64| #[trigger] contains(n, v) implies contains(s0, v) by {
+            let i = choose|i: int| 0 <= i < n.len() && inr(#[trigger] n[i], v);
+            if i < idx { assert(inr(cur[i], v)); } else { assert(inr(cur[i + 1], v)); }
+            assert(contains(cur, v));
+        }
+        assert forall|v: u64| #[trigger] contains(s0, v) && !inr(x, v) implies contains(n, v) by {
+            assert(contains(cur, v));
+            let j = choose|j: int| 0 <= j < cur.len() && inr(#[trigger] cur[j], v);
+            if j < idx { assert(inr(n[j], v)); } else if j > idx { assert(inr(n[j - 1], v)); }
+        }
+}
+pub proof fn lemma_rm_step_one(s0: RS, cur: RS, x: Range<u64>, idx: int, result: bool)
+    requires rm_inv(s0, cur, x, idx, result), x.start < x.end, idx < cur.len(), cur[idx].start < x.end,
+        (cur[idx].start < x.start) != (x.end < cur[idx].end)
+    ensures rm_inv(s0, rm_step(cur, x, idx).0, x, rm_step(cur, x, idx).1, true),
+        rm_step(cur, x, idx).0.len() - rm_step(cur, x, idx).1 < cur.len() - idx,
+{
+    let r = cur[idx];
+    let n = rm_step(cur, x, idx).0;
+    let nidx = rm_step(cur, x, idx).1;
+    let left = Range { start: r.start, end: x.start };
+    let right = Range { start: x.end, end: r.end };
+    let l_ne = r.start < x.start;
+    let r_ne = x.end < r.end;
+    let w = umax(r.start, x.start);
+    assert(r.start < r.end && r.end > x.start);
+    assert(inr(r, w) && inr(x, w));
+    assert(contains(cur, w));
+    assert(contains(s0, w));
+        let m = if !l_ne { right } else { left };
+        assert forall|i: int| 0 <= i < n.len() implies #[trigger] n[i] == (if i == idx { m } else { cur[i] }) by {}
+        assert(wf(n)) by {
+            assert forall|i: int| 0 <= i < n.len() implies (#[trigger] n[i]).start < n[i].end by { if i != idx { assert(cur[i].start < cur[i].end); } }
+            assert forall|i: int, j: int| 0 <= i < j < n.len() implies (#[trigger] n[i]).end < (#[trigger] n[j]).start by { assert(cur[i].end < cur[j].start); }
+        }
+        assert forall|i: int| 0 <= i < nidx implies ((#[trigger] n[i]).end <= x.start || n[i].start >= x.end) by { if i < idx { assert(n[i] == cur[i]); } }
+        assert forall|i: int| nidx <= i < n.len() implies (#[trigger] n[i]).end > x.start by { assert(n[i] == cur[i]); }
+        assert forall|v: u64| #[trigger] contains(n, v) implies contains(s0, v) by {
+            let i = choose|i: int| 0 <= i < n.len() && inr(#[trigger] n[i], v);
+            assert(inr(cur[i], v));
+            assert(contains(cur, v));
+        }
+        assert forall|v: u64| #[trigger] contains(s0, v) && !inr(x, v) implies contains(n, v) by {
+            assert(contains(cur, v));
+            let j = choose|j: int| 0 <= j < cur.len() && inr(#[trigger] cur[j], v);
+            assert(inr(n[j], v));
+        }
+}
+pub proof fn lemma_rm_step_both(s0: RS, cur: RS, x: Range<u64>, idx: int, result: bool)
+    requires rm_inv(s0, cur, x, idx, result), x.start < x.end, idx < cur.len(), cur[idx].start < x.end,
+        cur[idx].start < x.start && x.end < cur[idx].end
+    ensures rm_inv(s0, rm_step(cur, x, idx).0, x, rm_step(cur, x, idx).1, true),
+        rm_step(cur, x, idx).0.len() - rm_step(cur, x, idx).1 < cur.len() - idx,
+{
+    let r = cur[idx];
+    let n = rm_step(cur, x, idx).0;
+    let nidx = rm_step(cur, x, idx).1;
+    let left = Range { start: r.start, end: x.start };
+    let right = Range { start: x.end, end: r.end };
+    let l_ne = r.start < x.start;
+    let r_ne = x.end < r.end;
+    let w = umax(r.start, x.start);
+    assert(r.start < r.end && r.end > x.start);
+    assert(inr(r, w) && inr(x, w));
+    assert(contains(cur, w));
+    assert(contains(s0, w));
+        assert forall|i: int| 0 <= i < n.len() implies #[trigger] n[i] == (if i < idx { cur[i] } else if i == idx { left } else if i == idx + 1 { right } else { cur[i - 1] }) by {}
+        assert(wf(n)) by {
+            assert forall|i: int| 0 <= i < n.len() implies (#[trigger] n[i]).start < n[i].end by { if i < idx { assert(cur[i].start < cur[i].end); } else if i > idx + 1 { assert(cur[i - 1].start < cur[i - 1].end); } }
+            assert forall|i: int, j: int| 0 <= i < j < n.len() implies (#[trigger] n[i]).end < (#[trigger] n[j]).start by {
+                if j < idx { assert(cur[i].end < cur[j].start); }
+                else if j <= idx + 1 { if i < idx { assert(cur[i].end < cur[idx].start); } }
+                else if i < idx { assert(cur[i].end < cur[j - 1].start); }
+                else if i <= idx + 1 { assert(cur[idx].end < cur[j - 1].start); }
+                else { assert(cur[i - 1].end < cur[j - 1].start); }
+            }
+        }
+        assert forall|i: int| 0 <= i < nidx implies ((#[trigger] n[i]).end <= x.start || n[i].start >= x.end) by { if i < idx { assert(n[i] == cur[i]); } }
+        assert forall|i: int| nidx <= i < n.len() implies (#[trigger] n[i]).end > x.start by { assert(n[i] == cur[i - 1]); }
+        assert forall|v: u64| #[trigger] contains(n, v) implies contains(s0, v) by {
+            let i = choose|i: int| 0 <= i < n.len() && inr(#[trigger] n[i], v);
+            if i < idx { assert(inr(cur[i], v)); } else if i <= idx + 1 { assert(inr(cur[idx], v)); } else { assert(inr(cur[i - 1], v)); }
+            assert(contains(cur, v));
+        }
+        assert forall|v: u64| #[trigger] contains(s0, v) && !inr(x, v) implies contains(n, v) by {
+            assert(contains(cur, v));
+            let j = choose|j: int| 0 <= j < cur.len() && inr(#[trigger] cur[j], v);
+            if j < idx { assert(inr(n[j], v)); } else if j > idx { assert(inr(n[j + 1], v)); }
+            else if v < x.start { assert(inr(n[idx], v)); } else { assert(inr(n[idx + 1], v)); }
+        }
+}
+pub proof fn lemma_rm_step(s0: RS, cur: RS, x: Range<u64>, idx: int, result: bool)
+    requires rm_inv(s0, cur, x, idx, result), x.start < x.end, idx < cur.len(), cur[idx].start < x.end
+    ensures rm_inv(s0, rm_step(cur, x, idx).0, x, rm_step(cur, x, idx).1, true),
+        rm_step(cur, x, idx).0.len() - rm_step(cur, x, idx).1 < cur.len() - idx,
+{
+    let r = cur[idx];
+    if !(r.start < x.start) && !(x.end < r.end) { lemma_rm_step_none(s0, cur, x, idx, result); }
+    else if r.start < x.start && x.end < r.end { lemma_rm_step_both(s0, cur, x, idx, result); }
+    else { lemma_rm_step_one(s0, cur, x, idx, result); }
+}
+/// what the invariant means once the loop has left: exactly set difference, and the result says whether anything was removed
+pub proof fn lemma_rm_exit(s0: RS, cur: RS, x: Range<u64>, idx: int, result: bool)
+    requires rm_inv(s0, cur, x, idx, result), x.start < x.end, idx == cur.len() || x.end <= cur[idx].start
+    ensures forall|v: u64| #[trigger] contains(cur, v) <==> (contains(s0, v) && !inr(x, v)),
+        result <==> exists|v: u64| inr(x, v) && contains(s0, v),
+{
+    assert forall|v: u64| #[trigger] contains(cur, v) implies !inr(x, v) by {
+        let i = choose|i: int| 0 <= i < cur.len() && inr(#[trigger] cur[i], v);
+        if i >= idx {
+            assert(cur[idx].start < cur[idx].end);
+            if i > idx { assert(cur[idx].end < cur[i].start); }
+        }
+    }
+    if !result {
+        assert forall|v: u64| !(inr(x, v) && contains(s0, v)) by { if contains(s0, v) { assert(contains(cur, v)); } }
+    }
+}
 pub open spec fn is_pp(s: RS, p: u64, idx: int) -> bool {
     &&& 0 <= idx <= s.len()
     &&& forall|i: int| 0 <= i < idx ==> (#[trigger] s[i]).end < p
@@ -391,6 +561,36 @@ impl ArrayRangeSet {
 //@ contract
         requires wf(old(self).0@), x < u64::MAX
         ensures final(self).0@ == spec_insert(old(self).0@, x..(x + 1) as u64).0, res == spec_insert(old(self).0@, x..(x + 1) as u64).1,
+//@ end
+//@ extract quinn-proto/src/range_set/array_range_set.rs :: impl ArrayRangeSet::fn remove
+//@ props C03
+//@ ret res
+//@ closure 0 : &Range<u64> -> (b: bool)
+        ensures b == (r.end <= x.start)
+//@ contract
+        requires wf(old(self).0@),
+        // taken from what "remove" means: exactly set difference, still a well-formed range set, result = "something was removed";
+        // no index out of bounds, no arithmetic overflow, the loop terminates (this is what the ACK-of-ACK path of a peer reaches)
+        ensures wf(final(self).0@),
+            forall|v: u64| #[trigger] contains(final(self).0@, v) <==> (contains(old(self).0@, v) && !inr(x, v)),
+            res <==> exists|v: u64| inr(x, v) && contains(old(self).0@, v),
+//@ after let mut idx = self.0.partition_point(
+        proof { assert(rm_inv(old(self).0@, self.0@, x, idx as int, result)); }
+//@ loop 0
+            invariant
+                x.start < x.end,
+                rm_inv(old(self).0@, self.0@, x, idx as int, result),
+            ensures
+                idx == self.0@.len() || x.end <= self.0@[idx as int].start,
+            decreases self.0@.len() - idx
+//@ before result = true;
+            let ghost cur_b = self.0@;
+            let ghost idx_b = idx as int;
+            proof { lemma_rm_step(old(self).0@, cur_b, x, idx_b, result); }
+//@ loop-end 0
+            proof { assert(self.0@ =~= rm_step(cur_b, x, idx_b).0); assert(idx as int == rm_step(cur_b, x, idx_b).1); }
+//@ after while idx != self.0.len()
+        proof { lemma_rm_exit(old(self).0@, self.0@, x, idx as int, result); }
 //@ end
 //@ extract quinn-proto/src/range_set/array_range_set.rs :: impl ArrayRangeSet::fn insert
 //@ ret res
